@@ -1611,7 +1611,8 @@ def mon_c14(im, p):
         name, args = op[0], [D(a['d']) if isinstance(a, dict) and 'd' in a else a for a in op[1:]]
         src = {'push': 'push(c, a0)', 'pop': 'pop(c)', 'popi': 'pop(c, a0)', 'insert': 'insert(c, a0, a1)', 'read': 'c[a0]', 'write': 'c[a0] = a1',
                'cwrite': 'c[a0] += a1', 'del': 'del c[a0]', 'get': 'get(c, a0)', 'len': 'len(c)', 'in': 'a0 in c', 'keys': 'keys(c)',
-               'values': 'values(c)', 'index_of': 'index_of(c, a0)', 'remove': 'remove(c, a0)'}[name]
+               'values': 'values(c)', 'index_of': 'index_of(c, a0)', 'remove': 'remove(c, a0)', 'slice2': 'c[a0:a1]', 'slfrom': 'c[a0:]',
+               'slto': 'c[:a0]', 'step': 'c[::a0]', 'slmut': 'push(c[::a0], 5)', 'slmut2': 'push(c[a0:a1], 5)'}[name]
         for i, a in enumerate(args):
             names[f'a{i}'] = a
         try:
@@ -1656,6 +1657,28 @@ def mon_c14(im, p):
                     exp = ('ParserError',)
                 else:
                     m.insert(a[0], args[1]); exp = ('ok', None)
+            elif name == 'del' and isinstance(a[0], int) and not isinstance(a[0], bool):
+                # only the in-range case is pinned down by the statement (what a later read / len observe)
+                j = pos(n, a[0])
+                if j is not None:
+                    m.pop(j); exp = ('ok', None)
+            elif name == 'cwrite' and isinstance(a[0], int) and not isinstance(a[0], bool):
+                j = pos(n, a[0])
+                if j is not None and n < 10000 and isinstance(m[j], int) and not isinstance(m[j], bool) and got[0] == 'ok':
+                    m[j] = m[j] + args[1]; exp = got          # the statement's value is not pinned down; the container is
+            elif name in ('slice2', 'slfrom', 'slto', 'step', 'slmut', 'slmut2') and all(isinstance(x, int) and not isinstance(x, bool) for x in a):
+                # slices: truncated decimal bounds, negative bounds count from the end, bounds clamp, a step walks from either end;
+                # the result is a new list (a push to it leaves the container alone)
+                if name == 'slice2':
+                    exp = ('ok', m[a[0]:a[1]])
+                elif name == 'slfrom':
+                    exp = ('ok', m[a[0]:])
+                elif name == 'slto':
+                    exp = ('ok', m[:a[0]])
+                elif name == 'step' and a[0] != 0:
+                    exp = ('ok', [m[i] for i in (range(0, n, a[0]) if a[0] > 0 else range(n - 1, -1, a[0]))])
+                elif name in ('slmut', 'slmut2') and (name == 'slmut2' or a[0] != 0):
+                    exp = ('ok', None)
         else:
             key = str(args[0]) if args else None
             if name == 'write':
